@@ -32,8 +32,9 @@ CONSTANTS
   Rich,        \* TRUE: special atom also at the last non-zero position, all atoms in derivative slots
   Emit         \* print replay cases
 
-VARIABLES obj, fmt, faults, doc
-vars == <<obj, fmt, faults, doc>>
+VARIABLES obj, fmt, faults, doc,
+          lay          \* byte layout of a table document (the token structure is the same)
+vars == <<obj, fmt, faults, doc, lay>>
 
 (* ------------------------------------------------------------------ atoms *)
 Atoms     == {"zero", "negzero", "subnormal", "maxfinite", "minfinite",
@@ -239,6 +240,9 @@ Arity(name) == IF name \in {"vector:constrained hmm distribution", "vector:hiera
                ELSE IF name \in Wrappers THEN 2 ELSE 0
 
 Cfg(name, kids) == Obj([Name |-> Str(name), Parameters |-> [t |-> "params"], Distributions |-> Arr(kids)])
+(* an HMM whose parameters restrict the start states, the final states, both (to different sets), or permute the state map *)
+HmmVariants == {"start", "final", "startfinal", "statemap"}
+HmmCfg(name, kids, hv) == Obj([Name |-> Str(name), Parameters |-> [t |-> "params", hv |-> hv], Distributions |-> Arr(kids)])
 Leaf(name) == Cfg(name, <<>>)
 Wrap(w, c) == Cfg(w, [q \in 1..Arity(w) |-> c])
 
@@ -256,7 +260,13 @@ VectorCfgs2(u) == VectorCfgs1(u) \cup {Wrap(wc[1], wc[2]) : wc \in {wc \in Vecto
 MatrixBasic(u) == {Leaf(f) : f \in MatrixFamilies} \cup {Wrap(w, c) : w \in VectorToMatrix, c \in VectorBasic(u)}
 MatrixCfgs(u)  == MatrixBasic(u) \cup {Wrap(w, c) : w \in MatrixWrappers,
                                          c \in {Leaf(f) : f \in MatrixFamilies} \cup {Wrap(v, Leaf("vector:normal distribtion")) : v \in VectorToMatrix}}
-DistCfgs(u)    == ScalarCfgs2(u) \cup VectorCfgs2(u) \cup MatrixCfgs(u) \cup {Leaf(f) : f \in Standalone}
+HmmLikeV == {"vector:hmm distribution", "vector:constrained hmm distribution", "vector:hierarchical hmm distribution"}
+HmmLikeM == {"matrix:hmm distribution", "matrix:constrained hmm distribution", "matrix:hierarchical hmm distribution"}
+HmmVariantCfgs(u) ==
+       {HmmCfg(w, [q \in 1..Arity(w) |-> N1], hv) : w \in HmmLikeV, hv \in HmmVariants}
+  \cup {HmmCfg(w, [q \in 1..Arity(w) |-> Leaf("vector:normal distribtion")], hv) : w \in HmmLikeM, hv \in HmmVariants}
+  \cup {HmmCfg("matrix:shape hmm distribution", [q \in 1..2 |-> Wrap("matrix:vector id", Leaf("vector:normal distribtion"))], hv) : hv \in HmmVariants}
+DistCfgs(u)    == HmmVariantCfgs(u) \cup ScalarCfgs2(u) \cup VectorCfgs2(u) \cup MatrixCfgs(u) \cup {Leaf(f) : f \in Standalone}
 
 RECURSIVE CfgOK(_)
 CfgOK(nd) == /\ HasOnly(nd, {"Name", "Parameters", "Distributions"}, {})
@@ -581,17 +591,34 @@ ApplyCfg(nd, ft) ==
 ApplyFault(nd, ft, x, fm) ==
   IF x.k = "dist" THEN ApplyCfg(nd, ft) ELSE IF fm = "json" THEN ApplyJson(nd, ft) ELSE ApplyTable(nd, ft, x)
 
+(* ------------------------------------------------------------------ layouts *)
+(* A table document is a sequence of lines of blank-separated tokens; the     *)
+(* readers split lines at "\n" (bufioReadLine explicitly accepts a last line  *)
+(* without terminator) and tokens with strings.Fields.  The same abstract     *)
+(* document therefore has several legal byte layouts.  The abstract document  *)
+(* and hence Decode do not depend on the layout:                              *)
+(*   NoFinalNewline  the last line is not terminated  -> roundtrip-equal      *)
+(*   CRLF, TrailingBlanks  (not documented by the readers, but they fall out  *)
+(*   of strings.Fields) -> roundtrip-equal or an error, never another object  *)
+TableLayouts == {"canonical", "NoFinalNewline", "CRLF", "TrailingBlanks"}
+LayoutsOf(x, f) ==
+  IF f = "table" /\ x.k \in {"vector", "matrix"} /\ x.view = <<>> /\ (Family = "fault" \/ (x.cls = "plain" /\ x.dv = "none"))
+  THEN (IF Encode(x, f).l = <<>> THEN TableLayouts \ {"NoFinalNewline"} ELSE TableLayouts)   \* a file without lines has no last line
+  ELSE {"canonical"}
+
 (* ------------------------------------------------------------------ machine *)
 Init == /\ obj \in Objects
         /\ fmt \in Formats(obj)
         /\ faults = <<>>
         /\ doc = Encode(obj, fmt)
+        /\ lay \in LayoutsOf(obj, fmt)
 
 Fault == /\ Len(faults) < MaxFaults
+         /\ lay = "canonical"
          /\ \E ft \in FaultsOf(doc, obj, fmt) :
               /\ faults' = Append(faults, ft)
               /\ doc' = ApplyFault(doc, ft, obj, fmt)
-         /\ UNCHANGED <<obj, fmt>>
+         /\ UNCHANGED <<obj, fmt, lay>>
 
 Next == Fault
 Spec == Init /\ [][Next]_vars
@@ -609,8 +636,9 @@ TypesOf(x) ==
   IN {ty \in all : \A a \in AtomsOf(x) : AtomOK(ty, a)}
 
 Case ==
-  [obj |-> obj, fmt |-> fmt, faults |-> faults, types |-> TypesOf(obj),
-   expect |-> IF faults = <<>> THEN "roundtrip-equal" ELSE "error-or-wellformed",
+  [obj |-> obj, fmt |-> fmt, faults |-> faults, types |-> TypesOf(obj), layout |-> lay,
+   expect |-> IF faults # <<>> THEN "error-or-wellformed"
+              ELSE IF lay \in {"CRLF", "TrailingBlanks"} THEN "roundtrip-equal-or-error" ELSE "roundtrip-equal",
    exp |-> IF faults # <<>> THEN [k |-> "none"] ELSE Carried(obj, fmt),
    dev |-> IF faults = <<>> /\ TableLosesDims(obj, fmt) THEN "table-dims" ELSE "none",
    model |-> IF IsErr(Decoded) THEN "error" ELSE "object"]
